@@ -175,6 +175,7 @@ func mustPassChecked(w *World, r *Report, rule string, f *ssa.Function, target *
 
 func rulesC07(w *World, r *Report) {
 	r.Rule("C07.R1", "must-pass-through (checked): NewHeader passes validateAggregationMethod, validateXFilesFactor, fillOffset and ArchiveInfoList.validate; ParseArchiveInfoList passes fillOffset and validate; Header.TakeFrom passes both scalar validators and validate; Create passes NewHeader; Open passes readHeader which passes Header.TakeFrom; all reach the one ArchiveInfoList.validate", 11)
+	ruleCreatePassesLayout(w, r, "C07.R1")
 	ruleHeaderFirstRead(w, r, "C07.R1")
 	vAgg := fn(w.Lib, "validateAggregationMethod")
 	vXff := fn(w.Lib, "validateXFilesFactor")
@@ -546,6 +547,7 @@ func rulesC02(w *World, r *Report) {
 		r.Check(okGate, "C02.R3", "propagate:xff-gate", w.instrPos(putCall), "float32 gate known/all >= xFilesFactor guards the write", why)
 		// nothing else may skip the recomputation of a touched coarser slot
 		r.Rule("C02.R6", "every touched coarser slot is recomputed: the slot write in propagate is guarded by nothing but the non-empty test on the known values and the xFilesFactor gate", 1)
+		ruleKnownValueFilter(w, r, "C02.R6")
 		if pf := fn(w.Lib, "Whisper.propagate"); pf != nil {
 			ruleLoopGoesOn(w, r, "C02.R6", "Whisper.propagate:every-slot", firstLoopCall(pf, fn(w.Lib, "Whisper.fetchRawPoints")), "every coarser slot covering a written point is recomputed; a slot without known finer values is skipped, not the rest of the work-list")
 		}
